@@ -18,7 +18,11 @@ def main():
     lab = import_labrea()
     jobs = pickle.load(open(sys.argv[1], "rb"))
     out = []
-    for jid, blob, dicts in jobs:
+    from . import picklelib
+
+    for job in jobs:
+        jid, blob, dicts = job[:3]
+        warm = job[3] if len(job) > 3 else None
         try:
             root = pickle.loads(blob)
         except Exception as e:  # noqa
@@ -28,7 +32,17 @@ def main():
         for o in dicts:
             res.append({"eval": outcome(lambda: root.evaluate(dict(o)), lab),
                         "keys": outcome(lambda: sorted(root.keys(dict(o))), lab)})
-        out.append({"id": jid, "res": res})
+        item = {"id": jid, "res": res}
+        if warm is not None:
+            # a copy pickled AFTER dicts[0] had been evaluated: how many bodies run when it is asked again here
+            try:
+                wroot = pickle.loads(warm)
+                n0 = len(picklelib.BODY_LOG)
+                item["warm_eval"] = outcome(lambda: wroot.evaluate(dict(dicts[0])), lab)
+                item["warm_runs"] = len(picklelib.BODY_LOG) - n0
+            except Exception as e:  # noqa
+                item["warm_error"] = "%s: %s" % (type(e).__name__, e)
+        out.append(item)
     json.dump(out, open(sys.argv[2], "w"))
 
 
